@@ -184,8 +184,10 @@ class Repo:
             elif isinstance(node, ast.Assign):
                 for t in node.targets:
                     if isinstance(t, ast.Name):
-                        if t.id not in mi.constants or not no_overwrite:
-                            mi.constants[t.id] = node.value
+                        if no_overwrite and (t.id in mi.constants or t.id in mi.imports or t.id in mi.classes
+                                             or t.id in mi.functions):
+                            continue        # fallback definition in an except/else half: the first one wins
+                        mi.constants[t.id] = node.value
                     elif isinstance(t, ast.Tuple):
                         pass
             elif isinstance(node, ast.AnnAssign) and isinstance(node.target, ast.Name) and node.value is not None:
